@@ -154,7 +154,7 @@ type File struct {
 
 // ---------- line level parser
 
-var clauseKW = map[string]bool{"assumed": true, "fresh": true, "exit": true, "props": true, "mode": true, "bytes": true, "requires": true, "ensures": true, "modifies": true,
+var clauseKW = map[string]bool{"bounded": true, "assumed": true, "fresh": true, "exit": true, "props": true, "mode": true, "bytes": true, "requires": true, "ensures": true, "modifies": true,
 	"panics": true, "loop": true, "invariant": true, "decreases": true, "trusted": true, "wrap-ok": true,
 	"call": true, "aftercall": true, "implements": true, "replay": true, "safety": true, "pure": true, "conformance": true,
 	"assume": true, "show": true, "vars": true, "mustfail": true}
@@ -312,6 +312,8 @@ func ParseComments(pkg, file string, lines []string, lineNos []int) *File {
 			case "pure":
 				cur.Pure = true
 				cur.HasMod = true
+			case "bounded":
+				cur.Bounded = append(cur.Bounded, rest)
 			case "conformance":
 				cur.Conformance = rest
 			case "fresh":
